@@ -23,6 +23,8 @@ def enc_val(v):
         return v
     if isinstance(v, int):
         return v
+    if isinstance(v, float):
+        return v        # (times finer than the integers of the model: implementation-only cases)
     if isinstance(v, Event):
         return enc_event(v)
     if isinstance(v, list):
